@@ -1,2 +1,72 @@
-(* placeholder while the harness is being brought up *)
-From Abacus.C20 Require Import Spec Model.
+(* C20/Properties.v — the property theorems about the model of pipe_asdf.unpack_to_pipe (Model.v, tied to the code
+   by the correspondence run).  Statements only.
+
+   [unpack_to_pipe isatty files fields] = (bytes written to the pipe, outcome).  A file argument is [None] when the
+   path is not a file, else [Some af] with af the data mapping field id -> column (shape, item width, raw bytes).
+   [expected_stream], [expected_record], [field_count/width/data] (Expect.v) state the property directly on the
+   input files; [client_read n] (Spec.v) is a client that requested n fields and reads int64, int32, count*width bytes
+   n times.  [input_ok afs fields]: at least one file, every file has every requested field, every column is an array
+   (|bytes| = prod(shape) * itemsize, dims >= 0, 0 <= itemsize < 2^31), the files agree on the item width of each
+   requested field, the total count is < 2^63. *)
+From Coq Require Import ZArith List Strings.Byte.
+From Abacus.Common Require Import Arr.
+From Abacus.C20 Require Import Spec Model Expect Lib Proofs.
+Import ListNotations.
+Local Open Scope Z_scope.
+
+(* Little-endian encode/decode round trips for the two header integers. *)
+Theorem le64_decode_encode : forall n, 0 <= n < 18446744073709551616 -> le_decode (le_encode 8 n) = n.
+Proof. exact le64_roundtrip. Qed.
+Print Assumptions le64_decode_encode.
+
+Theorem le32_decode_encode : forall n, 0 <= n < 4294967296 -> le_decode (le_encode 4 n) = n.
+Proof. exact le32_roundtrip. Qed.
+Print Assumptions le32_decode_encode.
+
+(* ★ What is written: for any number of existing files (>= 1) and any request list whose fields all files have, the
+   pipe receives exactly, per requested field in request order,
+   le64(sum over files of prod(shape)) ++ le32(item width) ++ concatenation over files in argument order of the raw
+   bytes — nothing else, and the call succeeds.  No assumption on shapes (empty columns, any rank >= 0). *)
+Theorem emit_correct : forall afs fields,
+  afs <> [] -> valid afs fields ->
+  unpack_to_pipe false (map Some afs) fields = (expected_stream afs fields, Ok tt).
+Proof. exact emit_correct_lemma. Qed.
+Print Assumptions emit_correct.
+
+(* ★ The client's view: reading (int64 count, int32 width, count*width bytes) once per requested field recovers, in
+   request order, exactly the records (total element count, item width, concatenated raw bytes), count*width is the
+   number of data bytes of each record, and no byte is left over. *)
+Theorem emit_parses : forall afs fields,
+  input_ok afs fields = true ->
+  exists out,
+    unpack_to_pipe false (map Some afs) fields = (out, Ok tt) /\
+    client_read (length fields) out = Some (map (expected_record afs) fields, []) /\
+    Forall (fun r => r_count r * r_width r = len (r_data r)) (map (expected_record afs) fields).
+Proof. exact emit_parses_lemma. Qed.
+Print Assumptions emit_parses.
+
+(* ★ Total length: 12 header bytes per requested field plus the data bytes. *)
+Theorem emit_length : forall afs fields out r,
+  afs <> [] -> valid afs fields ->
+  unpack_to_pipe false (map Some afs) fields = (out, r) ->
+  len out = zsum (map (fun f => 12 + len (field_data afs f)) fields).
+Proof. exact emit_length_lemma. Qed.
+Print Assumptions emit_length.
+
+(* ★ A missing file is reported (FileNotFoundError class) before any byte is written — whatever else is wrong. *)
+Theorem missing_file_writes_nothing : forall files fields,
+  In None files -> unpack_to_pipe false files fields = ([], Raise OtherError).
+Proof. exact missing_file_lemma. Qed.
+Print Assumptions missing_file_writes_nothing.
+
+(* ★ All files exist but some file lacks some requested field: ValueError before any byte is written. *)
+Theorem missing_field_writes_nothing : forall afs fields af f,
+  In af afs -> In f fields -> lookup f af = None ->
+  unpack_to_pipe false (map Some afs) fields = ([], Raise ValueError).
+Proof. exact missing_field_lemma. Qed.
+Print Assumptions missing_field_writes_nothing.
+
+(* A terminal is refused before anything else. *)
+Theorem tty_writes_nothing : forall files fields, unpack_to_pipe true files fields = ([], Raise OtherError).
+Proof. exact tty_lemma. Qed.
+Print Assumptions tty_writes_nothing.
